@@ -26,7 +26,7 @@ frame_mod.np = nps          # the frame set-up casts the index column (np.asarra
 DT_NAMES = ['int8', 'int16', 'int32', 'uint8', 'uint16', 'uint32', 'float32', 'float64']
 DT_CODE = [12, 13, 14, 15, 16, 17, 2, 7]
 DT_SIZE = [1, 2, 4, 1, 2, 4, 4, 8]
-TOTAL_MAX = 1000
+TOTAL_MAX = 1000000      # symbolic row counts: the cost does not grow with the bound (provenance stub)
 
 
 def col(name, total, dti, order, width):
